@@ -181,6 +181,8 @@ def user_action(ws, a, k):
         # an untracked directory of the user where a later SCM of the recipe wants to check out
         os.makedirs(os.path.join(ws, 'vendor'), exist_ok=True)
         with open(os.path.join(ws, 'vendor', 'lib.h'), 'w') as f: f.write(marker + '\n')
+    elif a in ('w_side', 'w_commit_side') and git(ws, 'symbolic-ref', '-q', 'HEAD', check=False)[0] != 0:
+        return None         # leaving a detached HEAD abandons its commits by the user's own hand: not a history that tests Bob
     elif a == 'w_commit_side':
         # unpushed commit on the current branch, then hop to another local branch before Bob runs again
         marker = user_action(ws, 'w_commit', k)
